@@ -3,13 +3,14 @@
 #   patch applies to /repo HEAD; suite still 200 passed with it; demo fails with it; demo passes without it.
 # Accepted seeds are copied to /verif/seeded/<Cxx>-m<i>/ (patch.diff, demo.py, meta.json + verified.json)
 set -u
-W=/tmp/vseed_wt
+W=/tmp/vseed_wt_$$
 rm -rf $W
 git clone -q /repo $W || exit 1      # committed HEAD only: independent of whatever is applied in /repo's working tree
 SEED_ROOT=${SEED_ROOT:-/tmp/seed}
 for d in $SEED_ROOT/C*/_out/mut*; do
   prop=$(echo $d | sed 's#.*/\(C[0-9][0-9]\)/_out/.*#\1#'); i=$(basename $d | sed 's/mut//')
   id="$prop-m$i"
+  if [ -n "${ONLY:-}" ] && ! echo " $ONLY " | grep -q " $prop "; then continue; fi
   [ -f $d/patch.diff ] || { echo "$id: no patch"; continue; }
   [ -d /verif/seeded/$id ] && [ -z "${FORCE:-}" ] && { echo "$id: already accepted"; continue; }
   demo=$d/demo.py; [ -f $demo ] || demo=$d/demo_test.py
@@ -18,9 +19,9 @@ for d in $SEED_ROOT/C*/_out/mut*; do
   # clean run of the demo
   # the demo keeps the place it had in the agent's clone (<clone>/_out/mut<i>/demo.py): some locate test/resources relative to it
   mkdir -p $W/_out/mut$i; cp $demo $W/_out/mut$i/demo.py
-  PYTHONPATH=$W/src timeout 900 /venv/bin/python _out/mut$i/demo.py >/tmp/vseed_clean.log 2>&1; rc_clean=$?
+  PYTHONPATH=$W/src timeout 900 /venv/bin/python _out/mut$i/demo.py >/tmp/vseed_clean_$$.log 2>&1; rc_clean=$?
   git apply $d/patch.diff
-  PYTHONPATH=$W/src timeout 900 /venv/bin/python _out/mut$i/demo.py >/tmp/vseed_mut.log 2>&1; rc_mut=$?
+  PYTHONPATH=$W/src timeout 900 /venv/bin/python _out/mut$i/demo.py >/tmp/vseed_mut_$$.log 2>&1; rc_mut=$?
   tests=$(PYTHONPATH=$W/src timeout 900 /venv/bin/python -m pytest -q -p no:cacheprovider --timeout=900 --continue-on-collection-errors 2>&1 | tail -1)
   rm -rf $W/_out
   ok=no
